@@ -218,7 +218,7 @@ func (c *closerT) Close() {
 // ---------------------------------------------------------------- operations
 
 type hop struct {
-	K    string // task limited release panic worker wrelease wpanic addcloser withcancel cancelfn stop quiesce
+	K    string // task limited release panic relstop worker wrelease wpanic wrelstop addcloser withcancel cancelfn stop quiesce
 	N    int    // task / worker / ctx index, or semaphore index for limited
 	B    bool   // task: async; limited: wait; withcancel: on quiesce
 	Ctx  int    // task, limited, stop, quiesce: index of the WithCancelOn* context passed, or -1 (background)
@@ -243,6 +243,10 @@ func (o hop) coq() string {
 		return fmt.Sprintf("HRelease %d", o.N)
 	case "panic":
 		return fmt.Sprintf("HPanic %d", o.N)
+	case "relstop":
+		return fmt.Sprintf("HRelStop %d", o.N)
+	case "wrelstop":
+		return fmt.Sprintf("HWRelStop %d", o.N)
 	case "worker":
 		return "HWorker"
 	case "wrelease":
@@ -515,6 +519,16 @@ func (t *twin) apply(o hop) {
 		k := &twTask{limited: true, sem: o.N, ctx: o.Ctx}
 		t.tryLimited(k, true, o.B)
 		t.tasks = append(t.tasks, k)
+	case "relstop", "wrelstop":
+		// the body calls Stop itself -- only generated when a Stop call has
+		// been made already, so this one returns at once -- then returns
+		t.threads = append(t.threads, &twThread{isStop: true, state: "returned"})
+		if o.K == "relstop" {
+			t.apply(hop{K: "release", N: o.N})
+		} else {
+			t.apply(hop{K: "wrelease", N: o.N})
+		}
+		return
 	case "release", "panic":
 		// a panicking body takes the same deferred path: <-sem, runPostlude,
 		// Recover (handler); RunTask then returns nil
@@ -677,8 +691,14 @@ func eqObs(a, b obs, ambig []bool) bool {
 type taskRec struct {
 	release chan struct{}
 	panics  int32 // set before release is closed: the body panics instead of returning
+	stopID  int32 // set (> 0: call number + 1) before release is closed: the body calls Stop first
+	stopFlg *int32
 	begun   int32
 	ret     atomic.Value
+}
+type wstopRec struct {
+	stopID  int32 // > 0: the worker's body calls Stop (call number + 1) before it returns
+	stopFlg *int32
 }
 type ctxRec struct {
 	ctx    context.Context
@@ -693,6 +713,7 @@ type ctl struct {
 	tasks   []*taskRec
 	wrel    []chan struct{}
 	wpanic  []*int32
+	wstops  []*wstopRec
 	closers []*closerT
 	ctxs    []ctxRec
 	calls   []*int32
@@ -763,11 +784,34 @@ func (c *ctl) settle(exp obs, ambig []bool) obs {
 	return o
 }
 
+// bodyStop: a task or worker body calls Stop itself, as a goroutine that
+// reacts to ShouldQuiesce / ShouldStop "to make sure we shut down" may do.
+// Only done when a Stop call has been made before: this one must return at
+// once.
+func (c *ctl) bodyStop(k int, done *int32) {
+	c.l.add("stopcall", k, -1, "", false)
+	c.s.Stop(context.Background())
+	atomic.StoreInt32(done, 1)
+	c.l.add("stopret", k, -1, "", true)
+}
+
+// newCall registers a further Stop / Quiesce call of this case.
+func (c *ctl) newCall() (int, *int32) {
+	k := c.ncall
+	c.ncall++
+	done := new(int32)
+	c.calls = append(c.calls, done)
+	return k, done
+}
+
 func (c *ctl) body(i int, t *taskRec) func(context.Context) {
 	return func(context.Context) {
 		atomic.StoreInt32(&t.begun, 1)
 		c.l.add("begin", i, -1, "", true)
 		<-t.release
+		if k := atomic.LoadInt32(&t.stopID); k > 0 {
+			c.bodyStop(int(k)-1, t.stopFlg)
+		}
 		c.l.add("end", i, -1, "", true)
 		if atomic.LoadInt32(&t.panics) != 0 {
 			panic(bodyPanic{i})
@@ -821,14 +865,29 @@ func (c *ctl) do(o hop) {
 	case "panic":
 		atomic.StoreInt32(&c.tasks[o.N].panics, 1)
 		close(c.tasks[o.N].release)
+	case "relstop":
+		k, done := c.newCall()
+		c.tasks[o.N].stopFlg = done
+		atomic.StoreInt32(&c.tasks[o.N].stopID, int32(k+1))
+		close(c.tasks[o.N].release)
+	case "wrelstop":
+		k, done := c.newCall()
+		c.wstops[o.N].stopFlg = done
+		atomic.StoreInt32(&c.wstops[o.N].stopID, int32(k+1))
+		close(c.wrel[o.N])
 	case "worker":
 		w := len(c.wrel)
 		rel := make(chan struct{})
 		pf := new(int32)
 		c.wrel = append(c.wrel, rel)
 		c.wpanic = append(c.wpanic, pf)
+		ws := &wstopRec{}
+		c.wstops = append(c.wstops, ws)
 		c.s.RunWorker(bg, func(context.Context) {
 			<-rel
+			if k := atomic.LoadInt32(&ws.stopID); k > 0 {
+				c.bodyStop(int(k)-1, ws.stopFlg)
+			}
 			c.l.add("wend", w, -1, "", true)
 			if atomic.LoadInt32(pf) != 0 {
 				panic(bodyPanic{w})
@@ -964,6 +1023,8 @@ func genOps(rng *rand.Rand, caps []int, maxLen int) ([]hop, bool) {
 			o = hop{K: "release", N: run[rng.Intn(len(run))]}
 			if rng.Intn(4) == 0 {
 				o.K = "panic"
+			} else if tw.stopCalled && rng.Intn(3) == 0 {
+				o.K = "relstop"
 			}
 		case r < 64:
 			o = hop{K: "worker"}
@@ -975,6 +1036,8 @@ func genOps(rng *rand.Rand, caps []int, maxLen int) ([]hop, bool) {
 			o = hop{K: "wrelease", N: lw[rng.Intn(len(lw))]}
 			if rng.Intn(5) == 0 {
 				o.K = "wpanic"
+			} else if tw.stopCalled && rng.Intn(3) == 0 {
+				o.K = "wrelstop"
 			}
 		case r < 80:
 			o = hop{K: "addcloser"}
@@ -1029,9 +1092,13 @@ func genOps(rng *rand.Rand, caps []int, maxLen int) ([]hop, bool) {
 		o := cand[rng.Intn(len(cand))]
 		if o.K == "release" && rng.Intn(5) == 0 {
 			o.K = "panic"
+		} else if o.K == "release" && tw.stopCalled && rng.Intn(4) == 0 {
+			o.K = "relstop"
 		}
 		if o.K == "wrelease" && rng.Intn(6) == 0 {
 			o.K = "wpanic"
+		} else if o.K == "wrelease" && tw.stopCalled && rng.Intn(4) == 0 {
+			o.K = "wrelstop"
 		}
 		if o.K == "stop" && (len(tw.runningTasks()) > 0 || len(tw.liveWorkers()) > 0 || tw.anyWaiter()) {
 			racing = true
@@ -1136,6 +1203,7 @@ type freeCase struct {
 	Events []event
 	Hang   bool
 	Storm  bool
+	Flood  bool
 	Stops  int
 	Quis   int
 }
@@ -1169,6 +1237,14 @@ func runFree(seed int64) freeCase {
 	res := freeCase{NSems: len(caps), Caps: caps, Stops: nStops, Quis: nQuis}
 
 	// a body: runs for a moment, or until the stopper says quiesce (bounded)
+	// a task that reacts to ShouldQuiesce, or a worker that reacts to
+	// ShouldStop, by calling Stop itself "to make sure we shut down"
+	redundantStop := func() {
+		id := int(atomic.AddInt32(&callID, 1)) - 1
+		l.add("stopcall", id, -1, "", false)
+		s.Stop(bg)
+		l.add("stopret", id, -1, "", true)
+	}
 	var spawnWorker func(r *rand.Rand, depth int)
 	mkBody := func(i int, r *rand.Rand) func(context.Context) {
 		mode, d := r.Intn(3), time.Duration(r.Intn(300))*time.Microsecond
@@ -1177,6 +1253,7 @@ func runFree(seed int64) freeCase {
 			wr = rand.New(rand.NewSource(r.Int63()))
 		}
 		panics := r.Intn(7) == 0
+		stops := r.Intn(4) == 0
 		return func(context.Context) {
 			l.add("begin", i, -1, "", true)
 			if wr != nil {
@@ -1191,6 +1268,11 @@ func runFree(seed int64) freeCase {
 			default:
 				select {
 				case <-s.ShouldQuiesce():
+					// with no plain Quiesce caller about, the quiesce channel
+					// is closed by a Stop call only: a further one returns at once
+					if stops && nQuis == 0 {
+						redundantStop()
+					}
 				case <-time.After(3 * time.Millisecond):
 				}
 				time.Sleep(d / 4)
@@ -1206,6 +1288,7 @@ func runFree(seed int64) freeCase {
 		mode, d := r.Intn(3), time.Duration(r.Intn(200))*time.Microsecond
 		child := depth < 2 && r.Intn(4) == 0
 		wpanics := r.Intn(8) == 0
+		wstops := r.Intn(5) == 0
 		cr := rand.New(rand.NewSource(r.Int63()))
 		s.RunWorker(bg, func(context.Context) {
 			switch mode {
@@ -1214,6 +1297,9 @@ func runFree(seed int64) freeCase {
 			default:
 				// the usual pattern: work until told to stop
 				<-s.ShouldStop()
+				if wstops {
+					redundantStop()
+				}
 				time.Sleep(d / 2)
 			}
 			if child {
@@ -1363,6 +1449,36 @@ func runFree(seed int64) freeCase {
 			}()
 		}
 	}
+	// One ordinary history in four is a "flood": thousands of
+	// WithCancelOnStop contexts, and one or two workers that wait for
+	// ShouldStop and at once read a few dozen of those contexts: every one
+	// must be cancelled by then (Stop cancels them before it closes the
+	// channel; with so many, a Stop that closes first is caught in the act).
+	var floodCancels []func()
+	if !storm && rng.Intn(4) == 0 {
+		res.Flood = true
+		nf := 3000 + rng.Intn(3000)
+		fctx := make([]context.Context, nf)
+		for k := 0; k < nf; k++ {
+			var cancel func()
+			fctx[k], cancel = s.WithCancelOnStop(bg)
+			floodCancels = append(floodCancels, cancel)
+		}
+		for h := 1 + rng.Intn(2); h > 0; h-- {
+			w := int(atomic.AddInt32(&workerID, 1)) - 1
+			wr := rand.New(rand.NewSource(rng.Int63()))
+			s.RunWorker(bg, func(context.Context) {
+				<-s.ShouldStop()
+				for k := 0; k < 40; k++ {
+					// (a fresh small number per reading: the cancel
+					// functions of these contexts are not called before the end)
+					l.ctxSample(int(atomic.AddInt32(&ctxID, 1))-1, false, fctx[wr.Intn(nf)])
+				}
+				l.add("wend", w, -1, "", true)
+			})
+			l.add("wstart", w, -1, "", true)
+		}
+	}
 	for a := 0; a < nActors; a++ {
 		wg.Add(1)
 		prologue.Add(1)
@@ -1432,6 +1548,9 @@ func runFree(seed int64) freeCase {
 		wg.Wait()
 		<-s.IsStopped()
 		for _, c := range stormCancels {
+			c()
+		}
+		for _, c := range floodCancels {
 			c()
 		}
 		close(done)
